@@ -81,9 +81,10 @@ def configs(tier):
     L.append(dict(strategy='extendsplit', D=2, lmin=1, lmax=2, func='cornerpeak', norm=np.inf, recalc=2))
     L.append(dict(strategy='dimwise', D=2, lmin=1, lmax=2, func='product', norm=2, recalc=1, single_step=True))
     # the integrand's value cache switched off before the run (deactivate_caching): the strategies that evaluate in batches still count their points
-    # (the cell strategy evaluates point by point; with the cache off its point count stays 0 and the run never stops - not driven, see DESIGN)
+    # (the cell strategy evaluates point by point; with the cache off its point count stays 0 and the run never stops - a recorded finding)
     L.append(dict(strategy='dimwise', D=2, lmin=1, lmax=2, func='cornerpeak', norm=np.inf, nocache=True))
     L.append(dict(strategy='extendsplit', D=2, lmin=1, lmax=2, func='vector', norm=2, nocache=True, timeout=120))
+    L.append(dict(strategy='cell', D=2, lmin=2, lmax=2, func='cornerpeak', norm=np.inf, nocache=True, timeout=25))      # recorded finding: never stops
     # the library's own check of the final scheme switched on (test_scheme): it must not trip on any run
     L.append(dict(strategy='dimwise', D=2, lmin=1, lmax=2, func='vector', norm=np.inf, test_scheme=True))
     L.append(dict(strategy='extendsplit', D=2, lmin=1, lmax=2, func='cornerpeak', norm=2, test_scheme=True))
@@ -113,7 +114,7 @@ def run(tier, seed):
         except impl.Timeout:
             # the probe runs carry a finite point budget: a run that is still going after the watchdog time (two orders of magnitude above its usual
             # duration) has not stopped although the maximum was exceeded long ago
-            rep.violation('C13_StopsWhenMaximumExceeded', {'strategy': c['strategy'], 'probe': True, 'timeout': True},
+            rep.violation('C13_StopsWhenMaximumExceeded', {'strategy': c['strategy'], 'probe': True, 'timeout': True, 'cache_off': bool(c.get('nocache'))},
                           {'config': {k: (v if not isinstance(v, float) or v != np.inf else 'inf') for k, v in c.items()}, 'budget': mx, 'watchdog_s': c.get('timeout', 240)},
                           what='%s: the run with point budget %s did not stop within %d s' % (name, mx, c.get('timeout', 240)))
             continue
